@@ -23,8 +23,8 @@ import (
 
 // compose slice: stacks of real policies around a scripted function; see lean/Driver/Compose.lean for the protocol.
 
-const composeTimeout = 160 * time.Millisecond
-const composeHedgeDelay = 30 * time.Millisecond
+const composeTimeout = 600 * time.Millisecond
+const composeHedgeDelay = 15 * time.Millisecond
 
 // a retry policy's max duration and the duration of a "sleeping" outcome: everything else finishes well within the former
 const composeMaxDuration = 45 * time.Millisecond
@@ -573,6 +573,26 @@ func genCompose(r *rand.Rand, n int, tier string, emit func(string) string) {
 			hedgeMax = r.Intn(4)
 			co := pick(r, "-", "-", "R1", "I1", "R0,I2")
 			hedgeAny = co == "-"
+			if hasTimeout && !hedgeAny {
+				// a result that does not match the cancel conditions waits out the hedge delays; the waits of one Timeout scope
+				// (rounds of the retry policies in between x maxHedges x delay) must stay far below the time limit, or the
+				// "instant outcomes finish before any timer" assumption of the model would not hold
+				rounds := 1
+				for _, pl := range pols {
+					f := strings.Fields(pl)
+					if f[1] == "retry" {
+						m := int(atoi(f[2]))
+						if m < 0 {
+							m = 8 // bounded by the script length
+						}
+						rounds *= m + 1
+					}
+				}
+				budget := int(composeTimeout/4/composeHedgeDelay) / rounds
+				if hedgeMax > budget {
+					hedgeMax = budget
+				}
+			}
 			pols = append(pols, fmt.Sprintf("pol hedge %d %s", hedgeMax, co))
 		}
 		for _, l := range pre {
